@@ -1,7 +1,10 @@
 """C10 — all rendering entry points produce the same text.
 
 proof:  Properties/C10.v  (buffered_concat, buffered_chunks, entry points, encoded dump)
-tie  :  K-rt  extracted Stream.stream_buffered  ==  real TemplateStream.enable_buffering over
+tie  :  T    gen/stream_translate.py: the current source of _buffered_generator as a term of Lib/PyGen, proved
+        (Proofs/StreamTrans.v) to have the model's semantics for every size >= 1 and piece list;
+        gen/stream_facts.py: vocabulary of all TemplateStream methods = the expected table;
+        K-rt  extracted Stream.stream_buffered  ==  real TemplateStream.enable_buffering over
         arbitrary piece lists (exhaustive small scope + random), incl. sizes <= 1
 oracle: on generated template sets (extends / include / import / macros / loops) every entry
         point of the real engine yields the same text; buffered chunks equal the model's
@@ -89,6 +92,17 @@ def run(ctx):
             ctx.trusted.append("Gen_stream (vocabulary of TemplateStream = expected): " + " ".join(out.split()))
     except stream_facts.Untranslatable as e:
         ctx.broken.append(f"translator gen/stream_facts.py: TemplateStream left the translatable shape: {e}")
+    # translator tie (semantics): _buffered_generator's current source as a term of Lib/PyGen; the generated
+    # file proves it is the term whose semantics Proofs/StreamTrans proves equal to the model for all inputs
+    import stream_translate
+    try:
+        vtext = stream_translate.emit(lib.SRC)
+        ok, out = ctx.coq_obligation("Gen_stream_term", vtext, n_obligations=2)
+        if ok:
+            ctx.trusted.append("Gen_stream_term (source term of _buffered_generator = buffered_term; semantics = model): "
+                               + " ".join(out.split()))
+    except stream_translate.Untranslatable as e:
+        ctx.broken.append(f"translator gen/stream_translate.py: _buffered_generator left the embedded language: {e}")
 
     # ---------------- K-rt: model vs TemplateStream
     L = ctx.size(6, 8)
